@@ -105,7 +105,8 @@ Section Tune.
     s_ranks : list Q;          (* cv_results_["rank_test_<metric>"] *)
     s_best_index : Z;          (* best_index_ *)
     s_best_score : Q;          (* best_score_ *)
-    s_best : P }.              (* best_params_ *)
+    s_best : P;                (* best_params_ *)
+    s_params : list P }.       (* cv_results_["params"]: row i = the candidate scored in row i *)
 
   Definition tune (sp : splitter) (st : strategy) (cands : list P) : res search :=
     match cands with
@@ -115,8 +116,32 @@ Section Tune.
         | Err => Err
         | Ok means =>
             let '(rk, bi) := select (ascending_expr (PyBool greater_is_better)) means in
-            Ok (mksearch means rk bi (nth (Z.to_nat bi) means 0%Q) (nth (Z.to_nat bi) cands c0))
+            Ok (mksearch means rk bi (nth (Z.to_nat bi) means 0%Q) (nth (Z.to_nat bi) cands c0) cands)
         end
+    end.
+
+  (* ---- where the candidates come from -------------------------------------------------------
+     ParameterGrid / ParameterSampler are ITERABLES: one pass yields a list of candidates and may
+     consume generator state (random_state=None: numpy's global generator; a RandomState instance).
+     evaluate_candidates starts with `candidate_params = list(candidate_params)`: ONE pass; the list
+     it yields is what is evaluated AND what the params column shows. *)
+  Variable G : Type.                               (* state of the random generator *)
+  Variable draw : G -> list P * G.                 (* one pass over the iterable *)
+
+  Definition search_from (g : G) (sp : splitter) (st : strategy) : res search * G :=
+    let '(cands, g') := draw g in (tune sp st cands, g').
+
+  (* NOT the search: scores from a first pass, params column (and best_params_) from a SECOND pass
+     (regression C08-c).  Proofs.v: equal to the search when the iterable is re-iterable (a grid, an
+     integer seed); Refuted.v: rows and params misaligned otherwise. *)
+  Definition search_two_pass (g : G) (sp : splitter) (st : strategy) : res search :=
+    let '(cands, g') := draw g in
+    let '(cands2, _) := draw g' in
+    match tune sp st cands, cands2 with
+    | Ok s, c0 :: _ =>
+        Ok (mksearch (s_means s) (s_ranks s) (s_best_index s) (s_best_score s)
+                     (nth (Z.to_nat (s_best_index s)) cands2 c0) cands2)
+    | _, _ => Err
     end.
 
   (* ---- the fitted tuner as an object ---------------------------------------------------------- *)
@@ -178,12 +203,13 @@ Section Tune.
     end.
 End Tune.
 
-Arguments mksearch {P} _ _ _ _ _.
+Arguments mksearch {P} _ _ _ _ _ _.
 Arguments s_means {P} s.
 Arguments s_ranks {P} s.
 Arguments s_best_index {P} s.
 Arguments s_best_score {P} s.
 Arguments s_best {P} s.
+Arguments s_params {P} s.
 Arguments OpPredict {XV} fhabs x.
 Arguments OpUpdate {XV} y x.
 Arguments OpCutoff {XV}.
